@@ -1,17 +1,41 @@
 """Regenerate /verif/MANIFEST.json from the per-property metadata below (dev-time helper)."""
 import json, os
 
+NOTE_STD = ('Trusted: Coq 8.16.1 kernel + vm_compute; the axioms printed by Print Assumptions (recorded per run in the evidence: '
+            'primitive float/int declarations, stdlib FloatAxioms, and - only where binary64 order/range facts are used - the '
+            'classical-reals axioms and functional extensionality pulled in by Flocq/Reals); the correspondence harness '
+            '(differential testing bounds the model<->code tie); numpy/pandas/neurodsp semantics as written into the model. ')
+T_STD = 'Coq proof (induction over lists / Flocq binary64 facts) + model-vs-implementation correspondence evaluated with vm_compute'
+
 CLAIMED = {
-    'C08': dict(
-        text=('Proof: 10 axiom-free Coq theorems about the model minrun (window characterisation, whole-run keep/clear, '
-              'no False->True, idempotence, edge neutrality, mirror symmetry, monotonicity), for all arrays and all '
-              'min_n_cycles. The model (and a second, code-shaped model minrun_code) is tied to '
-              'check_min_burst_cycles by evaluating both in Coq on every boolean array up to length 10 (13 thorough) x '
-              'every min_n_cycles and on long random arrays, against the implementation output.'),
-        note=('Trusted: Coq kernel + vm_compute; correspondence harness (differential testing bounds the model<->code tie); '
-              'numpy array semantics. Non-boolean / non-ndarray inputs only checked to raise ValueError.'),
-        technique='Coq proof by induction over lists + exhaustive/ random model-vs-implementation correspondence in vm_compute',
-        ref='DESIGN.md section 4, C08'),
+    'C01': dict(text='Proof: for the Coq model of compute_features (extrema -> midpoints -> row assembly -> features -> labels) every returned table is a non-empty, ordered, tiled segmentation with all indices beyond the boundary, and a table is returned exactly when two cycles survive; the only failure classes are characterised. The model is tied to the code by comparing EVERY cell of the tables compute_features returns on generated signals over the option grid.',
+                note=NOTE_STD + 'The sign bits of the band-passed signal, the amplitude envelope and the dual-threshold mask are inputs of the model, computed by the harness with neurodsp. Library-level exceptions cannot be exhibited by the model: "returns a table instead of raising" holds for the real code on the explored grid only.', technique=T_STD, ref='DESIGN.md section 4, C01'),
+    'C02': dict(text='Proof: peaks/troughs of the model are exactly the first arg-max/arg-min of the raw samples over each half-wave closed by crossings on both sides (iff), they alternate strictly, the boundary filter and first_extrema trimming are characterised (interleaved, equal counts, failure iff). Correspondence: find_extrema on generated signals with reference sign bits, plus a stubbed-filter stream over all small sign patterns with ties.',
+                note=NOTE_STD + 'Signals finite; inputs with no crossing of one direction are outside the property (counted, skipped).', technique=T_STD, ref='DESIGN.md section 4, C02'),
+    'C03': dict(text='Proof: one midpoint per flank in temporal order, each inside its flank, equal to the floor of the median of ALL half-height crossings (or the centre for zero/inverted flanks), crossings characterised exactly, discrete intermediate-value lemma. Correspondence: find_zerox on extrema of generated signals and exhaustively on all small signals x all alternating index sequences.',
+                note=NOTE_STD, technique=T_STD, ref='DESIGN.md section 4, C03'),
+    'C04': dict(text='Proof: every shape column of the model is its documented formula; period = rise + decay; time_rdsym in (0,1) and time_ptsym in [0,1] proved for binary64 in both centrings (Flocq); the trough-centred table is read against the original signal. Correspondence: all 13 columns of compute_features vs the model, plus a direct oracle on the original signal.',
+                note=NOTE_STD + 'band_amp (numpy pairwise mean of the envelope) is compared with 1e-9 tolerance.', technique=T_STD, ref='DESIGN.md section 4, C04'),
+    'C05': dict(text='Proof: amp_fraction is the average rank over n; both centring branches of amp_consistency equal one centring-free three-pair definition; ends are NaN; strict monotone steps; all four features in [0,1] for positive finite flank voltages (binary64). Correspondence: pipeline tables and the individual functions (all directions) on synthetic tables with ties, zeros, negatives, NaN.',
+                note=NOTE_STD, technique=T_STD, ref='DESIGN.md section 4, C05'),
+    'C06': dict(text='Proof: a cycle is labelled iff it lies in a window of >= n consecutive qualifying interior cycles; ends never labelled; raising any threshold or n only removes labels (binary64 thresholds, arbitrary feature values incl. NaN/inf); rejections characterised. Correspondence: detect_bursts_cycles on synthetic tables with values one ulp around the thresholds, and compute_features routing of the thresholds the caller passed.',
+                note=NOTE_STD, technique=T_STD, ref='DESIGN.md section 4, C06'),
+    'C07': dict(text='Correspondence + partial proof: burst_fraction and is_burst of compute_features(burst_method="amp") are compared with the Coq model fed with the reference dual-threshold mask computed with the documented minimum-cycle count (burst options, else thresholds, else 3); label rule = window characterisation of the run filter (C08 theorems) and min-count consistency; the C07-specific theorem file is still being filled.',
+                note=NOTE_STD, technique=T_STD, ref='DESIGN.md section 4, C07'),
+    'C08': dict(text='Proof: 10 axiom-free theorems about the run filter (window characterisation, whole-run keep/clear, no False->True, idempotence, edge neutrality, mirror symmetry, monotonicity) for all arrays and all min_n_cycles. Two models (one-pass and code-shaped) are tied to check_min_burst_cycles on every boolean array up to length 10 (13 thorough) x every min_n_cycles and on long random arrays.',
+                note=NOTE_STD + 'Non-boolean / non-ndarray inputs only checked to raise ValueError.', technique=T_STD, ref='DESIGN.md section 4, C08'),
+    'C09': dict(text='Correspondence + metamorphic search + partial proof: both centrings are compared cell by cell with the Coq pipeline model (in which trough centring IS peak centring of the negated signal followed by the rename), and compute_features(sig, trough) is compared with compute_features(-sig, peak) after the documented swap; mirror lemmas for amp_consistency / monotonicity / ratio symmetry are proved (Props/C05); the table-level mirror theorem is still being assembled.',
+                note=NOTE_STD + 'Assumes the reference filter is odd (checked on every generated signal).', technique=T_STD, ref='DESIGN.md section 4, C09'),
+    'C10': dict(text='Correspondence + metamorphic search + partial proof: the Coq pipeline model has no fs / f_range argument at all (they enter only through the reference kernels), the tables are compared cell by cell at 8 sampling rates, and power-of-two amplitude scaling and (c fs, c f_range) replays are compared exactly on the implementation; scaling theorems are still being added.',
+                note=NOTE_STD + 'Binary64 exact scaling by powers of two and linearity of the reference filter are assumed.', technique=T_STD, ref='DESIGN.md section 4, C10'),
+    'C11': dict(text='Proof: Pool.imap modelled as a reorder buffer returns map f xs for EVERY completion permutation; position i of the 2-D result is cf(options_i, row_i); models mirror positions; an unordered pool is refuted. Correspondence: real pools with injected delays (reverse / first-slow / zigzag), n_jobs from 1 to rows+3, progress on/off; every returned table matched against directly computed candidates.',
+                note=NOTE_STD + 'Partial: the multiprocessing runtime itself is trusted and only exercised under the injected schedules.', technique=T_STD, ref='DESIGN.md section 4, C11'),
+    'C12': dict(text='Proof: for all shapes (n0, n1) and all completion orders, entry [i][j] is the analysis of signal [i,j] (axis=(0,1), row-major option list), row i the flattened-epoch analysis of sigs[i] (axis 0), column j that of sigs[:, j] (axis 1, via two transpositions); the pre-repair index i+j is refuted. Correspondence: compute_features_3d / BycycleGroup.fit on all shapes in {1,2,3}^2, three axis modes, shared / 1-D / 2-D lists.',
+                note=NOTE_STD, technique=T_STD, ref='DESIGN.md section 4, C12'),
+    'C13': dict(text='Correspondence + proof in progress: epoch_df and compute_features_2d(axis=None) are compared with the Coq model (half-open (kL,(k+1)L] assignment on the closing extremum, uniform shift, optional per-epoch re-labelling) on synthetic tables with closing indices on/around epoch boundaries, empty epochs, and on real signals with dict and per-epoch list options; partition theorems are being added.',
+                note=NOTE_STD, technique=T_STD, ref='DESIGN.md section 4, C13'),
+    'C19': dict(text='Proof: for all array extents, option-list shapes and axes the group entry points accept iff documented-valid; range checks accept exactly lo <= x <= hi (binary64); enumerated options, dimensionality guards; the pre-repair table is refuted. Correspondence: the decision function on the exhaustive grid, the public entry points on a sample (quick) or the whole grid (thorough), every scalar parameter at / inside / outside its range, every enumerated option.',
+                note=NOTE_STD, technique=T_STD, ref='DESIGN.md section 4, C19'),
 }
 
 PENDING = {}
